@@ -15,6 +15,8 @@ import (
 	"testing/cryptotest"
 	"testing/synctest"
 	"time"
+
+	"github.com/pion/turn/v5"
 )
 
 var (
@@ -159,6 +161,7 @@ func executePlan(t *testing.T, p *Plan, keepLog bool) *RunRecord {
 	rec := &RunRecord{Run: p.Run, Flavor: p.Flavor, World: worldTag(p)}
 	start := time.Now()
 	cryptotest.SetGlobalRandom(t, Mix(p.Seed, uint64(p.Run), 0xc4))
+	turn.VerifResetRelayListeners() // process-wide state of the library: nothing of an earlier run stays
 	if os.Getenv("VERIF_DEBUG_RAND") == "1" {
 		var b [4]byte
 		_, _ = crand.Read(b[:])
